@@ -45,7 +45,7 @@ CHECKS = {
    "Dry runs inserted into generated histories: no body executes, no file under the project or .dawn/build changes across Run, the evaluating set equals that of the real build performed next, a twin that skips the dry run behaves identically.",
    "Same engine as C01.", "DESIGN.md §5 C13"),
  "C14": ("exploration", "twin-history comparison + byte comparison of record files around GC",
-   "GC (after a full or index-preferring load) inserted at random points of one of two otherwise identical histories; records of existing labels survive byte-identical, records of removed labels and planted temporaries disappear, nothing outside .dawn/build changes, later builds execute the same bodies in both twins.",
+   "GC (after a full or index-preferring load) inserted at random points of one of two otherwise identical histories; records of existing labels (including a source file that has the name of the target listing it) survive byte-identical, records of removed labels and planted temporaries disappear, nothing outside .dawn/build changes, later builds execute the same bodies in both twins.",
    "Expected record paths mirror dawn's path scheme (url.PathEscape of package/name).", "DESIGN.md §5 C14"),
  "C15": ("fault_enumeration", "exhaustive byte-substitution/truncation fault enumeration of valid encodings in journaled children + corruption enumeration of persisted records followed by real Load+Run",
    "Decoder: every (position, byte) substitution and every truncation of ~50 valid encodings incl. real function-environment stamps, plus structure-aware splices and grammar-generated opcode programs; each input is written to disk before the call so that a fatal error names it; the result must be an error or a non-nil value that is safe to use. Records: JSON-level and stamp-level corruptions, truncations, wrong types, dependency-stamp edits and index.json corruptions of a built project, each followed by Load+Run in a journaled child; outcome classes load error / build error / re-executed / semantically equal / crash / silently up to date.",
